@@ -154,6 +154,11 @@ def crosses_instability(doc, engines):
                 K = world.ref_jac_items(fk, items)
             except Exception:
                 return True
+            # an equilibrium with inverted cells (det F <= 0 at a quadrature point) is an unphysical
+            # branch that models with energies defined for negative volume ratios admit
+            Fq = fk.field.extract()[0]
+            if np.linalg.det(np.moveaxis(Fq, (0, 1), (-2, -1))).min() <= 0:
+                return True
             dof0, dof1 = partition(fk.field, fk.steps[j].boundaries)
             nu = fk.field.fields[0].values.size
             d1 = dof1[dof1 < nu]
@@ -722,6 +727,10 @@ def retry_check(doc, eng, exc, log):
                 if w.top is not None:
                     w.top.link(res.x)  # what Job.evaluate does after every converged substep
     except ValueError as e:
+        if "Maximum number of iterations" in str(e) and any(it_.get("umat", {}).get("name") in world.HISTORY_MATERIALS for it_ in doc["items"]):
+            # Newton cycling at a loading / unloading switch of a history material: which of two histories
+            # that differ by rounding gets through is not part of the property (NaN failures stay violations)
+            raise Discard("iteration-histories-part-at-a-switch")
         raise Violation(PROP, "retry-after-failure", f"after a failed substep ({failed_kind}) the history cannot be continued on the same objects from the last converged state: {e}", site="+".join(sorted({it["type"] for it in doc["items"]})), fault=failed_kind)
     tail = eng2.callbacks[ncb:]
     tol = doc.get("newton", {}).get("tol", 1.5e-8)
